@@ -5,22 +5,30 @@ verus! {
 
 //@include units/common_xml.rs
 
-broadcast use {lemma_seg_push, lemma_seg_refl, lemma_prefix_trans};
 
-//@bytelits
+//@bytelits ok=NameId::Ok rpc-error=NameId::RpcError data=NameId::Data load-configuration-results=NameId::Results load-error-count=NameId::LoadErrorCount
 
 // ---------- spec (from C08) ----------
-pub open spec fn name_rpc_error() -> Seq<u8> { seq![114u8, 112, 99, 45, 101, 114, 114, 111, 114] }   // "rpc-error"
-pub open spec fn name_ok() -> Seq<u8> { seq![111u8, 107] }                                           // "ok"
-pub open spec fn name_data() -> Seq<u8> { seq![100u8, 97, 116, 97] }                                 // "data"
-pub open spec fn name_results() -> Seq<u8> {                                                          // "load-configuration-results"
-    seq![108u8, 111, 97, 100, 45, 99, 111, 110, 102, 105, 103, 117, 114, 97, 116, 105, 111, 110, 45, 114, 101, 115, 117, 108, 116, 115]
+// element names the property talks about (RFC 6241 / Junos reply grammar), as an enumeration of byte strings
+pub enum NameId { Ok, RpcError, Data, Results, LoadErrorCount, Other }
+#[verifier::opaque]
+pub open spec fn name_id(s: Seq<u8>) -> NameId {
+    if s =~= seq![111u8, 107] { NameId::Ok }                                                    // "ok"
+    else if s =~= seq![114u8, 112, 99, 45, 101, 114, 114, 111, 114] { NameId::RpcError }        // "rpc-error"
+    else if s =~= seq![100u8, 97, 116, 97] { NameId::Data }                                     // "data"
+    else if s =~= seq![108u8, 111, 97, 100, 45, 99, 111, 110, 102, 105, 103, 117, 114, 97, 116, 105, 111, 110, 45, 114, 101, 115, 117, 108, 116, 115] { NameId::Results }  // "load-configuration-results"
+    else if s =~= seq![108u8, 111, 97, 100, 45, 101, 114, 114, 111, 114, 45, 99, 111, 117, 110, 116] { NameId::LoadErrorCount }  // "load-error-count"
+    else { NameId::Other }
 }
-pub open spec fn is_start_of(it: Item, name: Seq<u8>) -> bool {
-    it matches Item::Ev(ResolveResult::Bound(ns), Event::Start(tag)) && ns == xmlns::BASE && tag.lname@ == name
+pub open spec fn name_rpc_error() -> NameId { NameId::RpcError }
+pub open spec fn name_ok() -> NameId { NameId::Ok }
+pub open spec fn name_data() -> NameId { NameId::Data }
+pub open spec fn name_results() -> NameId { NameId::Results }
+pub open spec fn is_start_of(it: Item, name: NameId) -> bool {
+    it matches Item::Ev(ResolveResult::Bound(ns), Event::Start(tag)) && ns == xmlns::BASE && name_id(tag.lname@) == name
 }
-pub open spec fn is_empty_of(it: Item, name: Seq<u8>) -> bool {
-    it matches Item::Ev(ResolveResult::Bound(ns), Event::Empty(tag)) && ns == xmlns::BASE && tag.lname@ == name
+pub open spec fn is_empty_of(it: Item, name: NameId) -> bool {
+    it matches Item::Ev(ResolveResult::Bound(ns), Event::Empty(tag)) && ns == xmlns::BASE && name_id(tag.lname@) == name
 }
 // the rpc-errors of the consumed part of a reply, in document order
 pub open spec fn errors_of(s: Seq<Item>) -> Seq<rpc::Error>
@@ -89,15 +97,50 @@ pub broadcast proof fn lemma_has_data_push(s: Seq<Item>, it: Item)
         if i < s.len() { assert(s.push(it)[i] == s[i]); }
     }
 }
-pub broadcast proof fn lemma_names_distinct()
-    ensures #[trigger] name_rpc_error() != name_ok(), name_rpc_error() != name_data(), name_rpc_error() != name_results(),
-{
-    assert(name_rpc_error().len() == 9); assert(name_ok().len() == 2); assert(name_data().len() == 4); assert(name_results().len() == 26);
+
+pub open spec fn has_results(s: Seq<Item>) -> bool { exists|i: int| 0 <= i < s.len() && is_start_of(#[trigger] s[i], name_results()) }
+// an <ok/> inside <load-configuration-results>
+pub open spec fn has_ok_in_results(s: Seq<Item>) -> bool {
+    exists|i: int, j: int| 0 <= i < j < s.len() && is_start_of(#[trigger] s[i], name_results()) && is_empty_of(#[trigger] s[j], name_ok())
 }
-broadcast use {lemma_errors_of_push, lemma_all_parsed_push_plain, lemma_all_parsed_push_error, lemma_has_ok_push, lemma_has_data_push};
+pub broadcast proof fn lemma_has_results_push(s: Seq<Item>, it: Item)
+    ensures #[trigger] has_results(s.push(it)) == (has_results(s) || is_start_of(it, name_results())),
+{
+    if has_results(s) {
+        let i = choose|i: int| 0 <= i < s.len() && is_start_of(#[trigger] s[i], name_results());
+        assert(s.push(it)[i] == s[i]);
+    }
+    if is_start_of(it, name_results()) { assert(s.push(it)[s.len() as int] == it); }
+    if has_results(s.push(it)) {
+        let i = choose|i: int| 0 <= i < s.push(it).len() && is_start_of(#[trigger] s.push(it)[i], name_results());
+        if i < s.len() { assert(s.push(it)[i] == s[i]); }
+    }
+}
+pub broadcast proof fn lemma_has_ok_in_results_push(s: Seq<Item>, it: Item)
+    ensures #[trigger] has_ok_in_results(s.push(it)) == (has_ok_in_results(s) || (has_results(s) && is_empty_of(it, name_ok()))),
+{
+    let s2 = s.push(it);
+    if has_ok_in_results(s) {
+        let (i, j) = choose|i: int, j: int| 0 <= i < j < s.len() && is_start_of(#[trigger] s[i], name_results()) && is_empty_of(#[trigger] s[j], name_ok());
+        assert(s2[i] == s[i] && s2[j] == s[j]);
+    }
+    if has_results(s) && is_empty_of(it, name_ok()) {
+        let i = choose|i: int| 0 <= i < s.len() && is_start_of(#[trigger] s[i], name_results());
+        assert(s2[i] == s[i] && s2[s.len() as int] == it);
+    }
+    if has_ok_in_results(s2) {
+        let (i, j) = choose|i: int, j: int| 0 <= i < j < s2.len() && is_start_of(#[trigger] s2[i], name_results()) && is_empty_of(#[trigger] s2[j], name_ok());
+        assert(s2[i] == s[i]);
+        if j < s.len() { assert(s2[j] == s[j]); }
+    }
+}
+pub broadcast group reply_lemmas { xml_log_lemmas, lemma_errors_of_push, lemma_all_parsed_push_plain, lemma_all_parsed_push_error, lemma_has_ok_push, lemma_has_data_push, lemma_has_results_push, lemma_has_ok_in_results_push }
 
 // ---------- shims: crate-level types ----------
-pub enum ReadError { UnexpectedXmlEvent(Event), MissingElement, Other }
+pub struct BoxErr;
+pub struct ParseIntError;
+impl From<ParseIntError> for BoxErr { #[verifier::external_body] fn from(e: ParseIntError) -> (r: BoxErr) { unimplemented!() } }
+pub enum ReadError { UnexpectedXmlEvent(Event), MissingElement, Other(BoxErr) }
 impl ReadError {
     #[verifier::external_body]
     pub fn missing_element(msg_type: &str, element: &str) -> (r: ReadError) { unimplemented!() }
@@ -122,6 +165,7 @@ pub trait ReadXml: Sized {
 
 pub mod rpc {
 use super::*;
+broadcast use reply_lemmas;
 
 //@item file=netconf/src/message/rpc/error.rs kind=enum name=Severity
 // rpc::Error: all fields other than the severity are abstracted into `ident`
@@ -140,7 +184,7 @@ impl Error {
     { unimplemented!() }
 }
 
-//@item file=netconf/src/message/rpc/error.rs kind=struct name=Errors sub=inner:=>pub inner:
+//@item file=netconf/src/message/rpc/error.rs kind=struct name=Errors sub=/inner:=>pub inner:/
 impl View for Errors { type V = Seq<Error>; open spec fn view(&self) -> Seq<Error> { self.inner@ } }
 impl Errors {
 //@extract id=errors_new file=netconf/src/message/rpc/error.rs impl=/^impl Errors/ fn=new rules=R1 vis=pub
@@ -174,12 +218,13 @@ pub open spec fn empty_reply_read_post(seg: Seq<Item>, res: Result<EmptyReply, R
     }
 }
 impl EmptyReply {
-//@extract id=empty_reply_read_xml file=netconf/src/message/rpc/mod.rs impl=/impl ReadXml for EmptyReply/ fn=read_xml rules=R1,R2,R7,R11 r7map=option vis=pub
+//@extract id=empty_reply_read_xml file=netconf/src/message/rpc/mod.rs impl=/impl ReadXml for EmptyReply/ fn=read_xml rules=R1,R2,R7,R11,R15 r7map=option vis=pub
 //@contract
         ensures
-            final(reader).remaining@.len() <= old(reader).remaining@.len(),
-            is_prefix(old(reader).log@, final(reader).log@),
-            empty_reply_read_post(seg_of(old(reader).log@, final(reader).log@), res),    // OBL:C08.empty_reply.read
+            // (stated for Ok results only: nothing is claimed about the reader after a parse error)
+            res is Ok ==> final(reader).remaining@.len() <= old(reader).remaining@.len(),
+            res is Ok ==> is_prefix(old(reader).log@, final(reader).log@),
+            res is Ok ==> empty_reply_read_post(seg_of(old(reader).log@, final(reader).log@), res),    // OBL:C08.empty_reply.read
 //@loop 1
             invariant
                 is_prefix(old(reader).log@, reader.log@),
@@ -203,6 +248,169 @@ pub proof fn lemma_c08_empty_reply(seg: Seq<Item>, reply: EmptyReply, r: Result<
     ensures c08(seg, has_ok(seg), r),                                                    // OBL:C08.empty_reply.property
 {
 }
+
+//@item file=netconf/src/message/rpc/mod.rs kind=enum name=DataReply
+
+pub open spec fn data_reply_read_post<D>(seg: Seq<Item>, res: Result<DataReply<D>, ReadError>) -> bool {
+    match res {
+        Ok(DataReply::Data(_)) => has_data(seg) && all_parsed(seg) && errors_of(seg).len() == 0,
+        Ok(DataReply::Errs(errs)) => errs@ =~= errors_of(seg) && errs@.len() > 0 && all_parsed(seg),
+        Err(_) => true,
+    }
+}
+impl<D: ReadXml> DataReply<D> {
+//@extract id=data_reply_read_xml file=netconf/src/message/rpc/mod.rs impl=/impl<D: ReadXml> ReadXml for DataReply<D>/ fn=read_xml rules=R1,R2,R7,R11,R15 r7map=option vis=pub
+//@contract
+        ensures
+            res is Ok ==> final(reader).remaining@.len() <= old(reader).remaining@.len(),
+            res is Ok ==> is_prefix(old(reader).log@, final(reader).log@),
+            res is Ok ==> data_reply_read_post(seg_of(old(reader).log@, final(reader).log@), res),    // OBL:C08.data_reply.read
+//@loop 1
+            invariant
+                is_prefix(old(reader).log@, reader.log@),
+                reader.remaining@.len() <= old(reader).remaining@.len(),
+                errors@ =~= errors_of(seg_of(old(reader).log@, reader.log@)),             // OBL:C08.data_reply.errors_exact_in_order
+                all_parsed(seg_of(old(reader).log@, reader.log@)),                        // OBL:C08.data_reply.no_error_skipped
+                this is Some ==> (this matches Some(DataReply::Data(_)) && has_data(seg_of(old(reader).log@, reader.log@)) && errors@.len() == 0), // OBL:C08.data_reply.data_only_without_errors
+            decreases reader.remaining@.len(),                                            // OBL:C14.data_reply.terminates
+//@end
+}
+impl<D> DataReply<D> {
+//@extract id=data_reply_into_result file=netconf/src/message/rpc/mod.rs impl=/impl<D> IntoResult for DataReply<D>/ fn=into_result rules=R1 vis=pub
+//@sig pub fn into_result(self) -> (res: Result<D, crate::Error>)
+//@contract
+        ensures match self { DataReply::Data(d) => res == Ok::<D, crate::Error>(d), DataReply::Errs(errs) => res == Err::<D, crate::Error>(crate::Error::RpcError(errs)) },  // OBL:C08.data_reply.into_result
+//@end
+}
+pub proof fn lemma_c08_data_reply<D>(seg: Seq<Item>, reply: DataReply<D>, r: Result<D, crate::Error>)
+    requires
+        data_reply_read_post(seg, Ok(reply)),
+        match reply { DataReply::Data(d) => r == Ok::<D, crate::Error>(d), DataReply::Errs(errs) => r == Err::<D, crate::Error>(crate::Error::RpcError(errs)) },
+    ensures c08(seg, has_data(seg), r),                                                  // OBL:C08.data_reply.property
+{
+}
+
+pub mod junos {
+use super::*;
+use super::super::*;
+use super::{Error, Errors};
+broadcast use reply_lemmas;
+
+//@item file=netconf/src/message/rpc/operation/junos/mod.rs kind=enum name=BareReply
+
+pub open spec fn bare_reply_read_post(seg: Seq<Item>, res: Result<BareReply, ReadError>) -> bool {
+    match res {
+        Ok(BareReply::Ok) => all_parsed(seg) && errors_of(seg).len() == 0,
+        Ok(BareReply::Errs(errs)) => errs@ =~= errors_of(seg) && errs@.len() > 0 && all_parsed(seg),
+        Err(_) => true,
+    }
+}
+impl BareReply {
+//@extract id=bare_reply_read_xml file=netconf/src/message/rpc/operation/junos/mod.rs impl=/impl ReadXml for BareReply/ fn=read_xml rules=R1,R2,R7,R11,R15 vis=pub
+//@contract
+        ensures
+            res is Ok ==> final(reader).remaining@.len() <= old(reader).remaining@.len(),
+            res is Ok ==> is_prefix(old(reader).log@, final(reader).log@),
+            res is Ok ==> bare_reply_read_post(seg_of(old(reader).log@, final(reader).log@), res),    // OBL:C08.bare_reply.read
+//@loop 1
+            invariant
+                is_prefix(old(reader).log@, reader.log@),
+                reader.remaining@.len() <= old(reader).remaining@.len(),
+                errors@ =~= errors_of(seg_of(old(reader).log@, reader.log@)),             // OBL:C08.bare_reply.errors_exact_in_order
+                all_parsed(seg_of(old(reader).log@, reader.log@)),                        // OBL:C08.bare_reply.no_error_skipped
+            decreases reader.remaining@.len(),                                            // OBL:C14.bare_reply.terminates
+//@end
+//@extract id=bare_reply_into_result file=netconf/src/message/rpc/operation/junos/mod.rs impl=/impl IntoResult for BareReply/ fn=into_result rules=R1 vis=pub
+//@sig pub fn into_result(self) -> (res: Result<(), crate::Error>)
+//@contract
+        ensures match self { BareReply::Ok => res is Ok, BareReply::Errs(errs) => res == Err::<(), crate::Error>(crate::Error::RpcError(errs)) },  // OBL:C08.bare_reply.into_result
+//@end
+}
+// positive indication of the bare Junos operations = an (otherwise) empty reply
+pub proof fn lemma_c08_bare_reply(seg: Seq<Item>, reply: BareReply, r: Result<(), crate::Error>)
+    requires
+        bare_reply_read_post(seg, Ok(reply)),
+        match reply { BareReply::Ok => r is Ok, BareReply::Errs(errs) => r == Err::<(), crate::Error>(crate::Error::RpcError(errs)) },
+    ensures c08(seg, true, r),                                                           // OBL:C08.bare_reply.property
+{
+}
+
+pub mod load_configuration {
+use super::super::*;
+use super::super::super::*;
+use crate::rpc;
+use crate::rpc::Errors;
+broadcast use reply_lemmas;
+
+// reader.read_text(end): the text content of a leaf element (ASSUMED: consumes events, records one TextOf item)
+pub struct CowStr { pub v: Vec<u8> }
+impl NsReader {
+    #[verifier::external_body]
+    pub fn read_text(&mut self, end: QName) -> (r: Result<CowStr, XmlError>)
+        ensures
+            final(self).remaining@.len() <= old(self).remaining@.len(),
+            r is Ok ==> final(self).log@ == old(self).log@.push(Item::TextOf(r->Ok_0.v@)),
+            r is Err ==> is_prefix(old(self).log@, final(self).log@),
+    { unimplemented!() }
+}
+impl CowStr {
+    // str::parse::<usize>()
+    #[verifier::external_body]
+    pub fn parse<T>(&self) -> (r: Result<T, ParseIntError>) { unimplemented!() }
+}
+
+//@item file=netconf/src/message/rpc/operation/junos/load_configuration.rs kind=enum name=Reply
+
+pub open spec fn load_reply_read_post(seg: Seq<Item>, res: Result<Reply, ReadError>) -> bool {
+    match res {
+        Ok(Reply::Ok) => has_ok_in_results(seg) && all_parsed(seg) && !has_severity_error(errors_of(seg)),
+        Ok(Reply::Errs(errs)) => errs@ =~= errors_of(seg) && all_parsed(seg),
+        Err(_) => true,
+    }
+}
+impl Reply {
+//@extract id=load_reply_read_xml file=netconf/src/message/rpc/operation/junos/load_configuration.rs impl=/impl ReadXml for Reply/ fn=read_xml rules=R1,R2,R7,R8,R11,R15 r7map=result constpats=xmlns::BASE vis=pub
+//@contract
+        ensures
+            res is Ok ==> final(reader).remaining@.len() <= old(reader).remaining@.len(),
+            res is Ok ==> is_prefix(old(reader).log@, final(reader).log@),
+            res is Ok ==> load_reply_read_post(seg_of(old(reader).log@, final(reader).log@), res),    // OBL:C08.load_reply.read
+//@loop 1
+            invariant
+                is_prefix(old(reader).log@, reader.log@),
+                reader.remaining@.len() <= old(reader).remaining@.len(),
+                errors@ =~= errors_of(seg_of(old(reader).log@, reader.log@)),             // OBL:C08.load_reply.errors_exact_in_order
+                all_parsed(seg_of(old(reader).log@, reader.log@)),                        // OBL:C08.load_reply.no_error_skipped
+                this is Some ==> (this == Some(Reply::Ok) && has_ok_in_results(seg_of(old(reader).log@, reader.log@)) && !has_severity_error(errors@)), // OBL:C08.load_reply.ok_only_without_error_severity
+            decreases reader.remaining@.len(),                                            // OBL:C14.load_reply.terminates
+//@loop 2
+                        invariant
+                            is_prefix(old(reader).log@, reader.log@),
+                            reader.remaining@.len() <= old(reader).remaining@.len(),
+                            errors@ =~= errors_of(seg_of(old(reader).log@, reader.log@)),             // OBL:C08.load_reply.errors_exact_in_order_inner
+                            all_parsed(seg_of(old(reader).log@, reader.log@)),                        // OBL:C08.load_reply.no_error_skipped_inner
+                            has_results(seg_of(old(reader).log@, reader.log@)),
+                            reader.remaining@.len() <= rem_at_results,
+                            this is Some ==> (this == Some(Reply::Ok) && has_ok_in_results(seg_of(old(reader).log@, reader.log@)) && !has_severity_error(errors@)), // OBL:C08.load_reply.ok_only_without_error_severity_inner
+                        decreases reader.remaining@.len(),                                            // OBL:C14.load_reply.terminates_inner
+//@before /let end = tag\.to_end\(\);/
+                    let ghost rem_at_results = reader.remaining@.len();
+//@end
+//@extract id=load_reply_into_result file=netconf/src/message/rpc/operation/junos/load_configuration.rs impl=/impl IntoResult for Reply/ fn=into_result rules=R1 vis=pub
+//@sig pub fn into_result(self) -> (res: Result<(), crate::Error>)
+//@contract
+        ensures match self { Reply::Ok => res is Ok, Reply::Errs(errs) => res == Err::<(), crate::Error>(crate::Error::RpcError(errs)) },  // OBL:C08.load_reply.into_result
+//@end
+}
+pub proof fn lemma_c08_load_reply(seg: Seq<Item>, reply: Reply, r: Result<(), crate::Error>)
+    requires
+        load_reply_read_post(seg, Ok(reply)),
+        match reply { Reply::Ok => r is Ok, Reply::Errs(errs) => r == Err::<(), crate::Error>(crate::Error::RpcError(errs)) },
+    ensures c08(seg, has_ok_in_results(seg), r),                                         // OBL:C08.load_reply.property
+{
+}
+} // mod load_configuration
+} // mod junos
 
 } // mod rpc
 
